@@ -28,7 +28,7 @@ impl<T> Sender<T> {
     #[verifier::external_body]
     pub fn send(&self, t: T) -> (r: Result<(), SendError>) { unimplemented!() }
 }
-pub enum StatusMessage { Scanning(String, u8), UpdateWarning(String), ScanningComplete(String) }
+pub enum StatusMessage { UpdatingOutputs(String), UpdatingTransactions(String), FullScanWarn(String), Scanning(String, u8), ScanningComplete(String), UpdateWarning(String) }
 
 // ---- the node's output set during one scan (A-node: the node's answers are consistent with one chain view during a call)
 pub type ChainOutT = (Commitment, RangeProof, bool, u64, u64);   // commit, proof, is_coinbase, height, mmr_index
